@@ -425,3 +425,15 @@ def check(ctx, run):  # noqa: F811
     run.require("C08.R6", 12)
     closed_form_precision_rule(ctx, run, "C08.R6", ["npdf", "ncdf", "d1", "d2"] + [f"bs_{fam}_{g}" for fam in ("european", "european_binary", "american_binary") for g in ("delta", "gamma", "vega", "theta")],
                                "float parameters and constants reach the closed-form Greek unrounded")
+
+
+_check_before_ctors = check
+
+
+def check(ctx, run):  # noqa: F811
+    """R7: the Black-Scholes modules keep the call flag, strike and derivative they were created with"""
+    _check_before_ctors(ctx, run)
+    from ..ctors import ctor_rule
+    N_ = "pfhedge.nn.modules.bs."
+    ctor_rule(ctx, run, "C08.R7", [N_ + c for c in ("european.BSEuropeanOption", "lookback.BSLookbackOption", "american_binary.BSAmericanBinaryOption", "european_binary.BSEuropeanBinaryOption")], None,
+              "the module prices / differentiates another contract than the one it was created for")
